@@ -24,7 +24,16 @@ def run_one(ctx, rep, cfg, shape, prog=None, record=True):
         # optimised IR may address a context through untyped byte offsets only; the unoptimised shape of the same
         # function still names the struct type behind obj->ctx
         hints = type_hints(ctx.prog(cfg, "O0"))
-    T = Taint(prog, lambda f, i: indirect_targets(prog, f, i), hints)
+    pub = set()
+    if record:
+        try:
+            from .ctr import ctr_backends
+            for b in ctr_backends(ctx, ctx.prog(cfg, "O0"), ctx.an(cfg)):
+                off, size = b.fields["offset"]
+                pub.add((b.ctxty, off, size))
+        except Exception:
+            pub = set()
+    T = Taint(prog, lambda f, i: indirect_targets(prog, f, i), hints, pub)
     by = {}
     for x in T.findings:
         by.setdefault((x["func"].key, x["rule"]), []).append(x)
